@@ -1,5 +1,5 @@
 """C01 - compiled clauses compute exactly Prolog's answers, in order."""
-from lib import semcheck, progs, progs_r4
+from lib import semcheck, progs, progs_r4, progs_r5
 from lib.semcheck import impl, model_expr, compare, oracle, describe, shrink, IMPORTS
 
 ID = 'C01'
@@ -55,6 +55,10 @@ def gen(rng, tier):
         cases.append({'clauses': p['clauses'], 'queries': p['queries'], 'shape': 'numerals'})
     for _ in range(n // 5):
         cases.append(progs_r4.gen_const_program(rng))
+    # round 6: groups of atoms whose names collide under a plausible mangling ('x y' / x_20y / x_y / xy ...), as constants, functor names,
+    # list elements and clause-head arguments, in positions where confusing two of them changes the answers (lib/progs_r5.py)
+    for _ in range(n // 5):
+        cases.append(progs_r5.gen_mangled_atom_program(rng))
     return cases
 
 def builtin_corpus():
